@@ -98,12 +98,14 @@ func concretise(m udpModel, h uint64) udpSpec {
 	}
 	if (h>>8)%4 == 0 && count(m.T, 4) <= 1 && count(m.U, 4) <= 1 {
 		sp.Sock = "real"
+	} else if (h>>8)%4 == 1 && len(m.U) > 0 && count(m.T, 4) <= 1 && count(m.U, 4) <= 1 {
+		sp.Sock = "vconn" // the real mapping.UDPVirtualConn (needs the peer's first datagram to exist)
 	}
 	for _, c := range m.T {
-		sp.T = append(sp.T, classSize(c, sp.Sock == "real"))
+		sp.T = append(sp.T, classSize(c, sp.Sock != "fake"))
 	}
 	for _, c := range m.U {
-		sp.U = append(sp.U, classSize(c, sp.Sock == "real"))
+		sp.U = append(sp.U, classSize(c, sp.Sock != "fake"))
 	}
 	sp.Cut = mapOff(m.T, sp.T, m.Cut)
 	switch {
@@ -147,10 +149,13 @@ func keep(raw json.RawMessage, seed int64, num, den uint64) (uint64, bool) {
 func expand(env *fw.Env, src string, raw json.RawMessage) []json.RawMessage {
 	quick := env.Tier == "quick"
 	switch src {
-	case "gen:bidi":
-		num, den := uint64(1), uint64(12)
+	case "gen:bidi", "gen:bidi2":
+		num, den := uint64(1), uint64(10)
 		if quick {
-			den = 15
+			den = 60
+		}
+		if src == "gen:bidi2" {
+			den = 20
 		}
 		h, ok := keep(raw, env.Seed, num, den)
 		if !ok {
@@ -202,14 +207,24 @@ func extras(env *fw.Env) []json.RawMessage {
 		{E("B", "halfclose"), W, S("A", 200000), W, E("A", "close")},
 		{S("A", 1 << 20), S("B", 1 << 20), W, E("A", "halfclose"), E("B", "halfclose")},
 	}
+	shapesB := []string{"same-closer", "same-cw", "same-none", "split-none", "split-closer", "split-cw", "direct-closer"}
 	for i, ops := range scripts {
 		via := "direct"
 		if i%3 == 2 {
 			via = "tunnel"
 		}
-		add(scriptSpec{Kind: "tcp", Via: via, CwA: true, CwB: true, Ops: ops})
-		add(scriptSpec{Kind: "bfree", Via: via, CwA: true, CwB: true, Ops: ops})
-		add(scriptSpec{Kind: "bfree", Via: "direct", CwA: i%2 == 0, CwB: false, Ops: ops})
+		add(scriptSpec{Kind: "tcp", Via: via, Ops: ops})
+		add(scriptSpec{Kind: "bfree", Via: via, ShA: "direct-cw", ShB: "direct-cw", Ops: ops})
+		// the tunnel the way the callers build it: the real adapter around one full-duplex conn
+		add(scriptSpec{Kind: "bfree", Via: via, ShA: []string{"direct-cw", "direct-closer"}[i%2], ShB: "same-closer", Ops: ops})
+		add(scriptSpec{Kind: "bfree", Via: "direct", ShA: "direct-cw", ShB: shapesB[i%len(shapesB)], Ops: ops})
+	}
+	// a net.Pipe tunnel (no CloseWrite, is a Closer) behind the real adapter, local side real TCP:
+	// the local application half-closes first, the tunnel peer answers afterwards
+	for _, via := range []string{"direct", "tunnel"} {
+		add(scriptSpec{Kind: "tcp", Via: via, Pipe: true, Ops: []sop{S("A", 3000), E("A", "halfclose"), W, S("B", 200000), W, E("B", "close")}})
+		add(scriptSpec{Kind: "tcp", Via: via, Pipe: true, Ops: []sop{S("A", 3000), S("B", 500), W, E("A", "halfclose"), W, S("B", 70000), S("B", 1), W, E("B", "close")}})
+		add(scriptSpec{Kind: "tcp", Via: via, Pipe: true, Ops: []sop{S("B", 40000), W, E("B", "close"), W, S("A", 90000), W, E("A", "halfclose")}})
 	}
 	// literal sweep: every byte offset of the stream (1, 2, 255), cut by EOF and by error
 	sweep := []int{1, 2, 255}
@@ -262,6 +277,41 @@ func extras(env *fw.Env) []json.RawMessage {
 		add(udpSpec{Kind: "udp", Via: via, Sock: "fake", T: []int{200, 100, 255, 1}, Cut: 564, How: "eof", Pace: "burst", Bounds: []int{202, 304, 561, 564}, Slow: "sockWrite"})
 		add(udpSpec{Kind: "udp", Via: via, Sock: "fake", T: many, Cut: manyLen, How: "eof", Pace: "burst", Bounds: []int{5, manyLen}, Slow: "sockWrite"})
 	}
+	// tunnel -> UDP through the REAL mapping.UDPVirtualConn: bursts of datagrams of distinct sizes
+	// and contents arriving back to back, read after read, so that the conn's writeLoop is still
+	// sending queued datagrams while the relay refills its read buffer
+	burst := func(n, base, step int) []int {
+		var out []int
+		for i := 0; i < n; i++ {
+			out = append(out, base+step*i)
+		}
+		return out
+	}
+	reps := 6
+	if env.Tier == "quick" {
+		reps = 3
+	}
+	for r := 0; r < reps; r++ {
+		for _, t := range [][]int{
+			append(burst(30, 200, 37), burst(30, 1400, -29)...),
+			append(append(burst(3, 100, 0), 60), burst(20, 900, 11)...),
+			append(burst(31, 1200, 3), append(burst(31, 64, 5), burst(31, 700, -7)...)...),
+		} {
+			total, bounds := 0, []int{}
+			for i, sz := range t {
+				total += 2 + sz
+				if (i+1)%(10+5*r) == 0 || (len(t) < 30 && i == 1) {
+					bounds = append(bounds, total)
+				}
+			}
+			via := []string{"direct", "tunnel"}[r%2]
+			how := []string{"eof", "eof", "err"}[r%3]
+			if len(bounds) == 0 || bounds[len(bounds)-1] != total {
+				bounds = append(bounds, total)
+			}
+			add(udpSpec{Kind: "udp", Via: via, Sock: "vconn", T: t, U: []int{33}, Cut: total, How: how, Pace: "burst", Bounds: bounds})
+		}
+	}
 	return out
 }
 
@@ -311,7 +361,8 @@ func udpConstsA(tseqs, useqs string, maxt, maxu int, batch int, devSpin, devNoUn
 		return "FALSE"
 	}
 	return map[string]string{"CLASSES": "{1, 2, 3, 4}", "BATCHSIZE": fmt.Sprint(batch), "TSEQS": tseqs, "USEQS": useqs,
-		"MAXT": fmt.Sprint(maxt), "MAXU": fmt.Sprint(maxu), "DEVSPIN": b(devSpin), "DEVNOUNBLOCK": b(devNoUnblock), "ALIAS": b(alias), "LIVE": live}
+		"MAXT": fmt.Sprint(maxt), "MAXU": fmt.Sprint(maxu), "DEVSPIN": b(devSpin), "DEVNOUNBLOCK": b(devNoUnblock), "ALIAS": b(alias), "LIVE": live,
+		"SOCKQ": "FALSE", "QREFS": "FALSE", "DROP": "FALSE"}
 }
 
 func modelJobs(env *fw.Env) []fw.TLCJob {
@@ -322,12 +373,21 @@ func modelJobs(env *fw.Env) []fw.TLCJob {
 	if env.Tier == "quick" {
 		return []fw.TLCJob{
 			{Name: "bidi:MaxSend=1:safety+liveness", Module: "Relay", Cfg: "Relay_bidi.cfg", Workers: 8},
-			{Name: "udp:patched(default cfg):T<=2xUSmall:strict-liveness", Module: "Relay", Cfg: "Relay_udp.cfg", Workers: 8},
-			udp("udp:patched:TTinyxU<=2:strict-liveness", udpConsts("TTiny", "UAll", 1, 2, 32, false, false, "UTermination")),
+			func() fw.TLCJob {
+				c := udpConsts("TAll", "USmall", 2, 1, 32, false, false, "UTermination")
+				c["CLASSES"] = "{1, 2, 4}"
+				return udp("udp:patched:T<=2xUSmall(classes 1,2,4):strict-liveness", c)
+			}(),
+			func() fw.TLCJob {
+				c := udpConsts("TTiny", "UAll", 1, 2, 32, false, false, "UTermination")
+				c["CLASSES"] = "{1, 2, 4}"
+				return udp("udp:patched:TTinyxU<=2(classes 1,2,4):strict-liveness", c)
+			}(),
 		}
 	}
 	return []fw.TLCJob{
 		{Name: "bidi:MaxSend=2:safety+liveness", Module: "Relay", Cfg: "Relay_bidi_thorough.cfg", Workers: 8},
+		{Name: "udp:patched(default cfg):T<=2xUSmall:strict-liveness", Module: "Relay", Cfg: "Relay_udp.cfg", Workers: 8},
 		udp("udp:patched:T<=3xUSmall:strict-liveness", udpConsts("TAll", "USmall", 3, 1, 32, false, false, "UTermination")),
 		udp("udp:patched:TSmallxU<=2:strict-liveness", udpConsts("TSmall", "UAll", 1, 2, 32, false, false, "UTermination")),
 		udp("udp:patched:T<=3:BatchSize=2:strict-liveness", udpConsts("TAll", "UNone", 3, 1, 2, false, false, "UTermination")),
@@ -361,17 +421,37 @@ func startBackground(env *fw.Env) {
 	}
 	bgRuns = []*bgRun{
 		mk("udp:as-found(lasso cfg):both deviations, strict liveness", "Relay_udp_lasso.cfg", nil, true),
-		mk("udp:as-found:only the de-framer re-read, strict liveness", "Relay_udp_tmpl.cfg", udpConsts("TTiny", "UNone", 1, 1, 32, true, false, "UTermination"), true),
-		mk("udp:as-found:only the missing wake-up, strict liveness", "Relay_udp_tmpl.cfg", udpConsts("TTiny", "UNone", 1, 1, 32, false, true, "UTermination"), true),
-		mk("udp:as-found(seeded cfg):T<=2xUSmall:liveness-modulo-deviations", "Relay_udp_seeded.cfg", nil, false),
+	}
+	if env.Tier == "thorough" {
+		bgRuns = append(bgRuns,
+			mk("udp:as-found:only the de-framer re-read, strict liveness", "Relay_udp_tmpl.cfg", udpConsts("TTiny", "UNone", 1, 1, 32, true, false, "UTermination"), true),
+			mk("udp:as-found:only the missing wake-up, strict liveness", "Relay_udp_tmpl.cfg", udpConsts("TTiny", "UNone", 1, 1, 32, false, true, "UTermination"), true),
+			mk("udp:as-found(seeded cfg):T<=2xUSmall:liveness-modulo-deviations", "Relay_udp_seeded.cfg", nil, false))
+	} else {
+		bgRuns = append(bgRuns,
+			mk("udp:as-found:T<=1xUSmall:liveness-modulo-deviations", "Relay_udp_tmpl.cfg", udpConsts("TAll", "USmall", 1, 1, 32, true, true, "UTerminationExcused"), false))
 	}
 	alias := mk("udp:seeded-fault(alias cfg):ticker writes an aliased batch slice after Unlock", "Relay_udp_alias.cfg", nil, true)
 	alias.expect = []string{"Invariant UEncoded is violated"}
-	bgRuns = append(bgRuns, alias)
+	qrefs := mk("udp:seeded-fault(queuerefs cfg):UDPVirtualConn queues a reference into the relay's read buffer", "Relay_udp_queuerefs.cfg", nil, true)
+	qrefs.expect = []string{"Invariant UDatagrams is violated"}
+	cfb := mk("bidi:seeded-fault(closefallback cfg):adapter CloseWrite closes a Closer-only writer", "Relay_bidi_closefallback.cfg", nil, true)
+	cfb.expect = []string{"Invariant BReverseKeepsFlowing is violated"}
+	bgRuns = append(bgRuns, alias, qrefs, cfb,
+		mk("udp:virtual conn(vconn cfg):write queue + writeLoop, copies, drained after close", "Relay_udp_vconn.cfg", nil, false))
+	drop := mk("udp:as-found(droponclose_strict cfg):writeLoop abandons its queue on Close", "Relay_udp_droponclose_strict.cfg", nil, true)
+	drop.expect = []string{"Invariant UNoDrop is violated"}
+	bgRuns = append(bgRuns, drop)
+	if env.Tier == "thorough" {
+		bgRuns = append(bgRuns, mk("udp:as-found(droponclose cfg):complete modulo the named deviation", "Relay_udp_droponclose.cfg", nil, false))
+	}
+	lanes := make(chan struct{}, 3) // at most three background JVMs at a time
 	for _, r := range bgRuns {
 		bgWG.Add(1)
 		go func(r *bgRun) {
 			defer bgWG.Done()
+			lanes <- struct{}{}
+			defer func() { <-lanes }()
 			r.res, r.err = fw.RunTLC(r.job)
 		}(r)
 	}
@@ -410,19 +490,24 @@ func tailStr(s string, n int) string {
 }
 
 func genJobs(env *fw.Env) []fw.TLCJob {
-	ms, mt, mu := "2", "3", "3"
+	mt, mu := "3", "3"
 	if env.Tier == "quick" {
-		ms, mt, mu = "1", "2", "2"
+		mt, mu = "2", "2"
 	}
 	ugen := func(name string, c map[string]string) fw.TLCJob {
 		c["EMIT"] = "TRUE"
 		return fw.TLCJob{Name: name, Module: "Relay", Cfg: "Relay_udp_gen.cfg", Consts: c, Workers: 8}
 	}
-	return []fw.TLCJob{
-		{Name: "gen:bidi", Module: "Relay", Cfg: "Relay_bidi_gen.cfg", Consts: map[string]string{"MAXSEND": ms, "EMIT": "TRUE"}, Workers: 1},
+	jobs := []fw.TLCJob{
+		{Name: "gen:bidi", Module: "Relay", Cfg: "Relay_bidi_gen.cfg", Consts: map[string]string{"MAXSEND": "1", "SHAPESB": "AllShapes", "EMIT": "TRUE"}, Workers: 1},
 		ugen("gen:udp-t", map[string]string{"MAXT": mt, "MAXU": "1", "TSEQS": "TAll", "USEQS": "USmall", "CUTS": `"all"`, "CHUNKS": "{99, 1, 2, 3}", "PACES": `{"burst"}`}),
 		ugen("gen:udp-u", map[string]string{"MAXT": "1", "MAXU": mu, "TSEQS": "TTiny", "USEQS": "UAll", "CUTS": `"end"`, "CHUNKS": "{99}", "PACES": `{"burst", "spaced", "heldwrite"}`}),
 	}
+	if env.Tier == "thorough" {
+		jobs = append(jobs, fw.TLCJob{Name: "gen:bidi2", Module: "Relay", Cfg: "Relay_bidi_gen.cfg",
+			Consts: map[string]string{"MAXSEND": "2", "SHAPESB": "TwoShapes", "EMIT": "TRUE"}, Workers: 1})
+	}
+	return jobs
 }
 
 // ---- self test: corrupted copies of accepted traces must be rejected --------------------------------
